@@ -837,6 +837,13 @@ class PubSubRun:
                         f"message type={h.msg_type} tag={tag}: subscriber id {mid} ({why}) was skipped but "
                         f"{got.get(mid, 0)} of {must[mid]} FAILED_MESSAGE notices naming it reached the logger monitor")
             extra = got - must - may
+            # a tolerated module whose dynamic id could not be learnt (no acknowledgement reached it or any logger)
+            spare_unknown = (may - got).get(-1, 0) if -1 in may else 0
+            for mid2 in list(extra):
+                while spare_unknown > 0 and extra[mid2] > 0:
+                    extra[mid2] -= 1
+                    spare_unknown -= 1
+            extra += Counter()
             if extra:
                 mid = next(iter(extra))
                 isl = any(model.conns[c].mod_id == mid and model.conns[c].is_logger for c in d.recipients)
